@@ -16,7 +16,7 @@ RULE = ("~x, x&y, x|y, x^y with y a fixed-point object of the same n_word (eithe
 ASSUMPTIONS = ['operands are created from raw codes', 'Fxp-array (x) Fxp-array and >=64-bit arrays (x) mask are outside the quantifier (they raise; recorded as an observation)']
 EXHAUSTIVE = False    # the whole quantifier is not enumerated; complete sub-domains are listed in EXHAUSTIVE_SUBDOMAINS
 EXHAUSTIVE_SUBDOMAINS = {'quick': ['all code pairs, n_word<=6, 4 signedness combinations, n_frac in {0, n_word//2, n_word} per operand'], 'thorough': ['same for n_word<=7 with every n_frac 0..n_word of x']}
-REQUIRED_CLASSES = {'negative': 1000, 'mixed-sign': 1000, 'wide>=64': 300, 'mask-negative': 200, 'reflected': 200, 'law': 500, 'indexed-operand': 200, 'numpy-mask:rmask': 100, 'numpy-mask:mask': 100}
+REQUIRED_CLASSES = {'negative': 1000, 'mixed-sign': 1000, 'wide>=64': 300, 'mask-negative': 200, 'reflected': 200, 'law': 500, 'indexed-operand': 200, 'shift-result-operand': 200, 'numpy-mask:rmask': 100, 'numpy-mask:mask': 100}
 OPS = ('and', 'or', 'xor')
 PY = {'and': lambda a, b: a & b, 'or': lambda a, b: a | b, 'xor': lambda a, b: a ^ b}
 WIDE = [16, 31, 32, 33, 63, 64, 65, 100, 128]
@@ -90,7 +90,7 @@ def check_scalar(ctx, case):
     sx, w, f = fx
     kx, ky = int(case['kx']), int(case['ky'])
     F = C.Fxp()
-    sig = 'scalar/%s%s' % ('wide' if w >= 64 else 'core', '/indexed' if case.get('indexed') else '')
+    sig = 'scalar/%s%s' % ('wide' if w >= 64 else 'core', '/indexed' if case.get('indexed') else '/shift-result' if case.get('via') == 'shift' else '')
     ctx.ev(8)
     ctx.cls('law', 4)
 
@@ -98,8 +98,20 @@ def check_scalar(ctx, case):
         # the operand is an element taken out of an array (an ordinary scalar object as far as the statement goes)
         return F(np.array([k, 0], dtype=object if fmt[1] > 62 else np.int64), fmt[0], fmt[1], fmt[2], raw=True)[0]
 
+    def shifted(fmt, k):
+        # the operand is the result of a keep-mode right shift (2k >> 1), when 2k fits the word
+        lo_, hi_ = M.rng(fmt[0], fmt[1])
+        if not lo_ <= 2 * k <= hi_:
+            return mk(F, fmt, k)
+        return F(2 * k, fmt[0], fmt[1], fmt[2], raw=True, shifting='keep') >> 1
+
     def do():
-        x, y = (elem(fx, kx), elem(fy, ky)) if case.get('indexed') else (mk(F, fx, kx), mk(F, fy, ky))
+        if case.get('indexed'):
+            x, y = elem(fx, kx), elem(fy, ky)
+        elif case.get('via') == 'shift':
+            x, y = shifted(fx, kx), shifted(fy, ky)
+        else:
+            x, y = mk(F, fx, kx), mk(F, fy, ky)
         if case.get('indexed'):
             m = M.twos(ky, w)
             for name, z in (('and-mask', x & m), ('rmask-or', m | x)):
@@ -217,7 +229,7 @@ def st_case(draw):
     fy = (sy, w, draw(st.sampled_from([0, w // 3, w])))
     kind = draw(st.sampled_from(['scalar', 'scalar', 'vec-fxp', 'vec-mask', 'vec-rmask', 'mismatch']))
     if kind == 'scalar':
-        return {'check': 'scalar', 'fx': list(fx), 'fy': list(fy), 'kx': draw(st_codew(sx, w)), 'ky': draw(st_codew(sy, w)), 'indexed': draw(st.integers(0, 3)) == 0}
+        return {'check': 'scalar', 'fx': list(fx), 'fy': list(fy), 'kx': draw(st_codew(sx, w)), 'ky': draw(st_codew(sy, w)), 'indexed': draw(st.integers(0, 3)) == 0, 'via': draw(st.sampled_from(['plain', 'plain', 'plain', 'shift']))}
     if kind == 'mismatch':
         w2 = w + draw(st.sampled_from([-1, 1, 8]))
         return {'check': 'mismatch', 'fx': list(fx), 'fy': [sy, max(w2, 1) if max(w2, 1) != w else w + 1, 0]}
@@ -261,6 +273,8 @@ def body(ctx, case):
             ctx.cls('numpy-mask:' + case['ykind'])
     if case.get('indexed'):
         ctx.cls('indexed-operand')
+    elif case.get('via') == 'shift':
+        ctx.cls('shift-result-operand')
     if nt:
         ctx.nontrivial(('bit', repr(sorted((k, repr(v)) for k, v in case.items()))))
     ctx.sample(case, nt)
